@@ -31,7 +31,7 @@ ASSUMPTIONS = ["float64, CPU", "filters are boolean tables over discrete variabl
 TECHNIQUE = "property-based testing against a NumPy enumeration oracle over generated filter tables, variable sets, declaration orders and periods"
 LEVEL_TEXT = "Exploration: thousands of generated (model, period) spaces per run compared field by field with a brute-force enumeration."
 
-PROFILE = Profile(name="space", p_filter=1.0, filter_modes=("keep_all", "drop", "free", "free"), max_R=3, max_RC=3,
+PROFILE = Profile(name="space", p_filter=1.0, filter_modes=("keep_all", "drop", "drop", "free", "free"), max_R=3, max_RC=3, min_RC=1,
                   max_periods=4, max_disc_states=4, max_disc_choices=4, max_points=10**9, p_aux=0.2, p_stoch=0.2)
 
 
